@@ -48,6 +48,10 @@ def siblings(text):
     return out
 
 
+class EnvironmentDependent(Exception):
+    """the result of parse/compile depends on something outside its input (file system, environment, ...)"""
+
+
 def compile_text(B, text, I=None, st=None, hash_order="fwd", allow_fail=False):
     E = B.engine("dev")
     if I is None:
@@ -65,6 +69,8 @@ def compile_text(B, text, I=None, st=None, hash_order="fwd", allow_fail=False):
     outs = I.call_fn(f2, [ValRef(tree), ValRef(opts)], s, env2)
     if len(outs) == 1 and is_err(outs[0][1]) and allow_fail:
         return I, outs[0][0], tree, None, None
+    if len(outs) != 1 and I.nondet_reads:
+        raise EnvironmentDependent("compile(%r) has %d outcomes depending on %s" % (text, len(outs), sorted(set(I.nondet_reads))))
     if len(outs) != 1 or isinstance(outs[0][1], Panic) or not is_ok(outs[0][1]):
         raise Inconclusive("corpus input %r does not compile to a single program" % text)
     s2, c = outs[0]
@@ -128,65 +134,73 @@ def run(ctx, rep, tier):
             base = compile_text(B, text)
         except Inconclusive:
             continue
-        n += 1
-        I0, st0, tree, ce0, items0 = base
-        ref = strip_clock(items0, I0.clock_reads)
-        # (a) hash iteration orders
-        for order in ("fwd", "rev", "rot"):
-            I1, st1, _, ce1, items1 = compile_text(B, text, hash_order=order)
-            ok = strip_clock(items1, I1.clock_reads) == ref and iomap_set(ce1) == iomap_set(ce0)
-            rep.query("%s:hash-order:%s" % (text, order), "unsat" if ok else "sat", 0.0)
+        except EnvironmentDependent as e:
+            rep.query("%s:environment" % text, "sat", 0.0)
+            confirm_nondeterminism(B, rep, text, str(e))
+            continue
+        try:
+            n += 1
+            I0, st0, tree, ce0, items0 = base
+            ref = strip_clock(items0, I0.clock_reads)
+            # (a) hash iteration orders
+            for order in ("fwd", "rev", "rot"):
+                I1, st1, _, ce1, items1 = compile_text(B, text, hash_order=order)
+                ok = strip_clock(items1, I1.clock_reads) == ref and iomap_set(ce1) == iomap_set(ce0)
+                rep.query("%s:hash-order:%s" % (text, order), "unsat" if ok else "sat", 0.0)
+                if not ok:
+                    confirm_nondeterminism(B, rep, text, "result depends on hash iteration order (%s)" % order)
+                    break
+            # (b) repeated in one process, after unrelated compilations
+            I = B.engine("dev").fresh()
+            st = St()
+            seq = []
+            sibs = siblings(text)
+            for t in [text, "-name zz -fprint QQ -print0", text, "-mmin 3 -o -iname q", "-mmin -5 -user root", "-fprint Z -ls", text] + \
+                     [x for sb in sibs for x in (sb, text)]:
+                n_reads = len(I.clock_reads)
+                _, st, _, ce_i, items_i = compile_text(B, t, I=I, st=st, allow_fail=True)
+                if ce_i is None:
+                    continue          # an unrelated compilation that fails (unsupported construct after a time test / a printer)
+                seq.append((t, strip_clock(items_i, I.clock_reads[n_reads:]), iomap_set(ce_i)))
+            mine = [(r, io) for t, r, io in seq if t == text]
+            ok = all(x == mine[0] for x in mine) and mine[0][0] == ref
+            rep.query("%s:repeat-in-process" % text, "unsat" if ok else "sat", 0.0)
             if not ok:
-                confirm_nondeterminism(B, rep, text, "result depends on hash iteration order (%s)" % order)
-                break
-        # (b) repeated in one process, after unrelated compilations
-        I = B.engine("dev").fresh()
-        st = St()
-        seq = []
-        sibs = siblings(text)
-        for t in [text, "-name zz -fprint QQ -print0", text, "-mmin 3 -o -iname q", "-mmin -5 -user root", "-fprint Z -ls", text] + \
-                 [x for sb in sibs for x in (sb, text)]:
-            n_reads = len(I.clock_reads)
-            _, st, _, ce_i, items_i = compile_text(B, t, I=I, st=st, allow_fail=True)
-            if ce_i is None:
-                continue          # an unrelated compilation that fails (unsupported construct after a time test / a printer)
-            seq.append((t, strip_clock(items_i, I.clock_reads[n_reads:]), iomap_set(ce_i)))
-        mine = [(r, io) for t, r, io in seq if t == text]
-        ok = all(x == mine[0] for x in mine) and mine[0][0] == ref
-        rep.query("%s:repeat-in-process" % text, "unsat" if ok else "sat", 0.0)
-        if not ok:
-            confirm_nondeterminism(B, rep, text, "result depends on earlier calls in the same process")
-        # (b') a fresh process in which a sibling of the same shape is compiled FIRST (a cache filled by the sibling must not answer)
-        for sb in sibs:
-            I2 = B.engine("dev").fresh()
-            st2 = St()
-            try:
-                _, st2, _, ce_s, _ = compile_text(B, sb, I=I2, st=st2, allow_fail=True)
-            except Inconclusive:
-                continue
-            n_reads = len(I2.clock_reads)
-            _, st2, _, ce_t, items_t = compile_text(B, text, I=I2, st=st2, allow_fail=True)
-            ok2 = ce_t is not None and strip_clock(items_t, I2.clock_reads[n_reads:]) == ref and iomap_set(ce_t) == iomap_set(ce0)
-            rep.query("%s:after-sibling:%s" % (text, sb), "unsat" if ok2 else "sat", 0.0)
-            if not ok2:
-                confirm_after(B, rep, sb, text)
-                break
-        if I.nondet_reads or I0.nondet_reads:
-            confirm_nondeterminism(B, rep, text, "reads process-specific state: %s" % (I.nondet_reads or I0.nondet_reads))
-        # (c) clock
-        segs = [it for it in items0 if isinstance(it, Seg)]
-        n_tt = count_time_tests(tree)
-        clock_segs = [s for s in segs if is_sym(s.term) and any(s.term.eq(t) for t in I0.clock_reads)]
-        other = [s for s in segs if s not in clock_segs]
-        ok = len(clock_segs) == n_tt and not other and len(I0.clock_reads) == n_tt
-        rep.query("%s:clock-readings" % text, "unsat" if ok else "sat", 0.0)
-        if not ok:
-            d = B.ctx.run_native([text], "debug")[0]
-            rep.violation("clock", "%r: %d time tests, %d clock readings, %d embedded readings, %d other symbolic values" % (
-                text, n_tt, len(I0.clock_reads), len(clock_segs), len(other)), dict(input=text, native_t0=d.get("t0"), native_t1=d.get("t1"), scheme=d.get("scheme", "")[-300:]))
-        if len(samples) < 6:
-            samples.append(dict(input=text, time_tests=n_tt, io_map=iomap_set(ce0)))
-    # structural purity scan of the whole crate MIR
+                confirm_nondeterminism(B, rep, text, "result depends on earlier calls in the same process")
+            # (b') a fresh process in which a sibling of the same shape is compiled FIRST (a cache filled by the sibling must not answer)
+            for sb in sibs:
+                I2 = B.engine("dev").fresh()
+                st2 = St()
+                try:
+                    _, st2, _, ce_s, _ = compile_text(B, sb, I=I2, st=st2, allow_fail=True)
+                except Inconclusive:
+                    continue
+                n_reads = len(I2.clock_reads)
+                _, st2, _, ce_t, items_t = compile_text(B, text, I=I2, st=st2, allow_fail=True)
+                ok2 = ce_t is not None and strip_clock(items_t, I2.clock_reads[n_reads:]) == ref and iomap_set(ce_t) == iomap_set(ce0)
+                rep.query("%s:after-sibling:%s" % (text, sb), "unsat" if ok2 else "sat", 0.0)
+                if not ok2:
+                    confirm_after(B, rep, sb, text)
+                    break
+            if I.nondet_reads or I0.nondet_reads:
+                confirm_nondeterminism(B, rep, text, "reads process-specific state: %s" % (I.nondet_reads or I0.nondet_reads))
+            # (c) clock
+            segs = [it for it in items0 if isinstance(it, Seg)]
+            n_tt = count_time_tests(tree)
+            clock_segs = [s for s in segs if is_sym(s.term) and any(s.term.eq(t) for t in I0.clock_reads)]
+            other = [s for s in segs if s not in clock_segs]
+            ok = len(clock_segs) == n_tt and not other and len(I0.clock_reads) == n_tt
+            rep.query("%s:clock-readings" % text, "unsat" if ok else "sat", 0.0)
+            if not ok:
+                d = B.ctx.run_native([text], "debug")[0]
+                rep.violation("clock", "%r: %d time tests, %d clock readings, %d embedded readings, %d other symbolic values" % (
+                    text, n_tt, len(I0.clock_reads), len(clock_segs), len(other)), dict(input=text, native_t0=d.get("t0"), native_t1=d.get("t1"), scheme=d.get("scheme", "")[-300:]))
+            if len(samples) < 6:
+                samples.append(dict(input=text, time_tests=n_tt, io_map=iomap_set(ce0)))
+        # structural purity scan of the whole crate MIR
+        except EnvironmentDependent as e:
+            rep.query("%s:environment" % text, "sat", 0.0)
+            confirm_nondeterminism(B, rep, text, str(e))
     P = B.engine("dev").P
     suspicious = []
     for name, f in P.funcs.items():
